@@ -140,6 +140,7 @@ def spec_strategy(heavy: bool):
         st.builds(lambda s: ['CREATE', s], st.sampled_from(list(program.SHAPES[:-1]))),
         st.builds(lambda s: ['CREATE', s], st.sampled_from(list(program.SHAPES) if heavy else list(program.SHAPES[:-1]))),
         st.just(['BADCONFIG']),
+        st.builds(lambda k: ['DROP', k], st.sampled_from([-1, -2, 0, 3])),
         st.builds(lambda k: ['CONSTRUCT', 0, k], kw),
         st.builds(lambda k: ['RAISE', k], st.sampled_from(list(program.RAISES))),
         st.builds(lambda k: ['PREBUILD', 0, k], kw),
